@@ -1023,6 +1023,59 @@ func TestEnumUnions(t *testing.T) {
 	suite.Extra("union_matrix_exhaustive_over", fmt.Sprintf("%d x %d union members (indices -3..3, keys a b) x %d containers x %d continuations x 8 operations x {simple, gen, user collections}", len(members), len(members), len(datas), len(tails)))
 }
 
+// TestEnumDescentAfter: every operation through a descent that starts from several elements at
+// once (after a wildcard, union, slice, filter or another descent), on trees where the matches
+// lie at different depths below different elements.
+func TestEnumDescentAfter(t *testing.T) {
+	m := func(kv ...any) map[string]any {
+		out := map[string]any{}
+		for i := 0; i+1 < len(kv); i += 2 {
+			out[kv[i].(string)] = kv[i+1]
+		}
+		return out
+	}
+	i := func(n int) *int { return &n }
+	k := func(s string) *string { return &s }
+	datas := []any{
+		[]any{m("c", int64(1)), m("b", m("a", int64(5))), m("a", int64(6), "c", m("a", int64(7)))},
+		[]any{m("c", m("c", int64(1))), m("c", int64(2)), m("b", []any{m("a", int64(5))}), []any{m("a", int64(8))}},
+		m("a", m("c", int64(1)), "b", m("b", m("a", int64(5))), "c", []any{m("a", int64(8))}),
+		[]any{[]any{int64(1), int64(2)}, []any{m("a", int64(5))}, m("a", []any{m("a", int64(9))})},
+		[]any{m("c", int64(1)), m("b", []any{int64(3), []any{int64(4), int64(5)}}), []any{[]any{int64(6)}}},
+	}
+	all := &jpx.Eq{Op: "neq", L: &jpx.Eq{Op: "get", P: jpx.Path{{K: "at"}}}, R: &jpx.Eq{Op: "const", CK: "int", CI: 99}}
+	heads := [][]jpx.Frag{
+		{{K: "wild"}}, {{K: "union", U: []jpx.UItem{{Idx: i(0)}, {Idx: i(1)}}}}, {{K: "union", U: []jpx.UItem{{Idx: i(0)}, {Idx: i(1)}, {Idx: i(2)}, {Idx: i(3)}}}},
+		{{K: "union", U: []jpx.UItem{{Key: k("a")}, {Key: k("b")}, {Key: k("c")}}}}, {{K: "slice", S: []int{0, 2}}}, {{K: "slice", S: nil}},
+		{{K: "filter", F: all}}, {{K: "wild"}, {K: "wild"}}, {{K: "nth", N: 1}}, {},
+	}
+	tails := [][]jpx.Frag{{{K: "child", Key: "a"}}, {{K: "nth", N: 0}}, {{K: "nth", N: -1}}, {{K: "child", Key: "a"}, {K: "nth", N: 0}}, {{K: "union", U: []jpx.UItem{{Key: k("a")}, {Idx: i(1)}}}}, {{K: "child", Key: "b"}, {K: "child", Key: "a"}}}
+	ops := []string{"set", "setone", "del", "delone", "remove", "removeone", "modify", "modifyone"}
+	var n atomic.Int64
+	vrt.Workers(func(wi, wn int) {
+		idx := 0
+		for _, d := range datas {
+			enc := wx.Enc(d)
+			for _, h := range heads {
+				for _, tail := range tails {
+					for _, op := range ops {
+						for _, variant := range []int{0, 1, 2} {
+							idx++
+							if idx%wn != wi {
+								continue
+							}
+							p := append(append(append(jpx.Path{{K: "root"}}, h...), jpx.Frag{K: "descent"}), tail...)
+							vrt.Eval(suite, "mutate", Case{Op: op, Path: p, Data: enc, Val: wx.Enc("NEW"), Mod: "marker", Gen: variant == 1, User: variant == 2}, Run)
+							n.Add(1)
+						}
+					}
+				}
+			}
+		}
+	})
+	suite.AddExtra("descent_after_matrix_cases", n.Load())
+}
+
 // TestEnumOneForms is exhaustive over a small scope: the *One operations on paths that fan out
 // over several parents (wildcard, union, slice or descent first) each of which holds locations
 // the last fragment selects - "at most one location" is then a statement about the whole call,
